@@ -5,7 +5,9 @@ EXTENDS Pose
 P(x, s, R, t) == [x |-> x, s |-> s, R |-> R, t |-> t]
 
 \* positions (multiples of U = 8) of either sign, shifts with exact half-voxel ties (+-4, 12) and off-lattice eighths
-XSet == { <<16, 24, 40>>, <<-16, 0, 8>> }
+\* incl. a non-integral extraction position (1.5, -2.5, 5.5 voxels): with a zero shift only the position itself says
+\* that an update has something to do
+XSet == { <<16, 24, 40>>, <<-16, 0, 8>>, <<12, -20, 44>> }
 SSet == { <<0, 0, 0>>, <<4, -4, 12>>, <<-3, 20, -12>>, <<1, -5, 2>> }
 
 Second == P(<<24, 8, 16>>, <<4, -4, 0>>, Rx1, 2)
